@@ -171,7 +171,7 @@ pub fn for_each_value(cfg: &Cfg, tag: &str, f: &ValueCheck<'_>) -> Stats {
     for k in 3..=cfg.pick(3, 4) {
         d.enumerate(&format!("parsed: locale alphabet ({} tokens), {k} subtags, no prefix", loc_alpha.len()), &loc_alpha, k, b'-', b"");
     }
-    let n = cfg.pick(200_000, 4_000_000);
+    let n = cfg.pick(500_000, 4_000_000);
     d.strategy("parsed: G3 near-miss mutations of well-formed locales, the accepted ones (proptest)", &gen::s_near_miss(), cfg.seed, &format!("{tag}-g3"), n / 2, |b| b.clone());
     d.strategy("parsed: G2 well-formed locales (proptest)", &gen::s_ast(), cfg.seed, &format!("{tag}-g2"), n, |a| a.render());
     d.strategy("parsed: G2 long locales (many variants, keywords, private tags; proptest)", &gen::s_locale_long_bytes(), cfg.seed, &format!("{tag}-g2long"), n / 10, |b| b.clone());
@@ -187,7 +187,7 @@ pub fn for_each_value(cfg: &Cfg, tag: &str, f: &ValueCheck<'_>) -> Stats {
     d.list("parsed: G5 CLDR locale names x extension suffixes", &all);
     let mut total = d.total;
     // 2. from_parts
-    let n2 = cfg.pick(150_000, 3_000_000);
+    let n2 = cfg.pick(400_000, 3_000_000);
     let s = run_strategy(&s_parts(), cfg.seed, &format!("{tag}-parts"), n2, |p, st| match build_parts(p) {
         Some(loc) => f(&loc, &parts_case(p), st, Count::Hash),
         None => st.class("parts-not-accepted(skipped)"),
@@ -195,7 +195,7 @@ pub fn for_each_value(cfg: &Cfg, tag: &str, f: &ValueCheck<'_>) -> Stats {
     total = total.merge(s);
     total.subspace("from_parts over valid subtags, variants permuted/duplicated, extension string parsed (proptest)", n2, false);
     // 3. histories (end states)
-    let n3 = cfg.pick(60_000, 1_000_000);
+    let n3 = cfg.pick(150_000, 1_000_000);
     let s = run_strategy(&crate::props::c10::s_history(), cfg.seed, &format!("{tag}-hist"), n3, |(start, ops_), st| match run_history(start, ops_) {
         Some(loc) => f(&loc, &ops::history_case(start, ops_), st, Count::Hash),
         None => st.class("history-start-not-accepted(skipped)"),
